@@ -235,6 +235,29 @@ class C11(Prop):
                     acc.count("malformed_rejected")
                     continue
                 acc.violation("malformed-accepted", f"{s!r} encoded to {out!r}", {"input": s, "output": out})
+        # the process lives on into the next local day (a day that may be 23, 24 or 25 hours after this one began)
+        clock.set_zone(zone)
+        loc_ = clock.local(zone, now)
+        nxt = clock.epochs_of(zone, (loc_ + timedelta(days=1)).date(), 0, 0) or clock.epochs_of(zone, (loc_ + timedelta(days=1)).date(), 1, 0)
+        if nxt:
+            for after in (600, 1500, 3300, 4500):
+                t_ = nxt[0] + after
+                day_ = clock.local(zone, t_).date()
+                with clock.virtual_time(t_):
+                    for s_ in ("00:05", "06:30", "23:55"):
+                        want_ = clock.epochs_of(zone, day_, int(s_[:2]), int(s_[3:]))
+                        if not want_:
+                            continue
+                        acc.ev()
+                        try:
+                            g_ = int.from_bytes(bytes.fromhex(enc(s_)), "little")
+                        except Exception as exc:
+                            acc.violation("encode-raised", f"{s_} in {zone} shortly after the next local midnight raised {type(exc).__name__}: {exc}", {"zone": zone})
+                            continue
+                        if g_ not in want_:
+                            acc.violation("encode-wrong-epoch:after-midnight", f"{zone}: {after // 60} min after the local midnight that follows {loc_.date()}, {s_} is encoded as {g_} "
+                                          f"({clock.local(zone, g_)}), want one of {want_} (today is {day_})", {"zone": zone, "time": s_, "after_s": after})
+            acc.count("cases_followed_into_the_next_local_day")
         if now % 3 == 0:
             # an application-side log handler that fails (full disk, broken pipe) while DEBUG is on: the calls made meanwhile
             # may fail with it and are not judged - the calls after the handler is gone are
